@@ -153,23 +153,26 @@ def Trigger.step : Trigger → Entry → Entry
   | .fixSetBits, e => if !e.isSym && unsafeMode e.mode then { e with mode := clearBits e.mode 0o6002 } else e
   | .detectWorldWritable fp, e =>
     if fp && (!e.isSym && (e.mode &&& 0o002 != 0)) then { e with mode := clearBits e.mode 0o002 } else e
+  | .reset _, e => e
 
 def hardenWith (ts : List Trigger) (e : Entry) : Entry := ts.foldl (fun e t => t.step e) e
 
 theorem step_loc (t : Trigger) (e : Entry) : (t.step e).loc = e.loc := by
-  cases t <;> simp only [Trigger.step] <;> split <;> rfl
+  cases t <;> simp only [Trigger.step] <;> first | rfl | (split <;> rfl)
 
 theorem step_kind (t : Trigger) (e : Entry) : (t.step e).kind = e.kind := by
-  cases t <;> simp only [Trigger.step] <;> split <;> rfl
+  cases t <;> simp only [Trigger.step] <;> first | rfl | (split <;> rfl)
 
 theorem step_payload (t : Trigger) (e : Entry) : (t.step e).payload = e.payload := by
-  cases t <;> simp only [Trigger.step] <;> split <;> rfl
+  cases t <;> simp only [Trigger.step] <;> first | rfl | (split <;> rfl)
 
 theorem step_isSym (t : Trigger) (e : Entry) : (t.step e).isSym = e.isSym := by
   simp [Entry.isSym, step_kind]
 
-theorem run_eq_map (t : Trigger) (c : CSet) (hnd : (c.map (·.loc)).Nodup) : t.run c = c.map t.step := by
+theorem run_eq_map (t : Trigger) (hnr : t.isReset = false) (c : CSet) (hnd : (c.map (·.loc)).Nodup) :
+    t.run c = c.map t.step := by
   cases t with
+  | reset img => cases hnr
   | fixUid b g =>
     exact update_filter_map (fun x => x.uid == b) (fun x => { x with uid := g }) (fun _ => rfl) c hnd
   | fixGid b g =>
@@ -206,15 +209,15 @@ theorem run_eq_map (t : Trigger) (c : CSet) (hnd : (c.map (·.loc)).Nodup) : t.r
 theorem map_step_locs (t : Trigger) (c : CSet) : (c.map t.step).map (·.loc) = c.map (·.loc) := by
   simp [List.map_map, Function.comp_def, step_loc]
 
-theorem runTriggers_eq_map (ts : List Trigger) (c : CSet) (hnd : (c.map (·.loc)).Nodup) :
-    runTriggers ts c = c.map (hardenWith ts) := by
+theorem runTriggers_eq_map (ts : List Trigger) (hnr : ∀ t ∈ ts, t.isReset = false) (c : CSet)
+    (hnd : (c.map (·.loc)).Nodup) : runTriggers ts c = c.map (hardenWith ts) := by
   induction ts generalizing c with
   | nil =>
     show c = c.map (fun e => e)
     simp
   | cons t ts ih =>
     show runTriggers ts (t.run c) = _
-    rw [run_eq_map t c hnd, ih _ (by rw [map_step_locs]; exact hnd)]
+    rw [run_eq_map t (hnr t (by simp)) c hnd, ih (fun t' ht' => hnr t' (by simp [ht'])) _ (by rw [map_step_locs]; exact hnd)]
     simp [List.map_map, Function.comp_def, hardenWith]
 
 /-! ## fold invariants -/
@@ -322,5 +325,34 @@ theorem hardenedB_iff' (bu ru bg rg : Nat) (fp : Bool) (e e' : Entry) :
       · cases hs : e.isSym
         · exact Or.inr (h.no_ww hfp hs)
         · exact Or.inl (Or.inr rfl)
+
+/-! ## the contents reset of the ebuild format -/
+
+theorem update_append_nodup (l pre : CSet) (h : ((pre ++ l).map (·.loc)).Nodup) : update pre l = pre ++ l := by
+  induction l generalizing pre with
+  | nil => simp [update]
+  | cons e es ih =>
+    have hnot : ∀ y ∈ pre, y.loc ≠ e.loc := by
+      intro y hy heq
+      rw [List.map_append, List.nodup_append] at h
+      exact h.2.2 _ (List.mem_map.2 ⟨y, hy, rfl⟩) _ (List.mem_map.2 ⟨e, by simp, rfl⟩) heq
+    have hds : dictSet pre e = pre ++ [e] := by
+      clear ih h
+      induction pre with
+      | nil => rfl
+      | cons x xs ih2 =>
+        have hx : x.loc ≠ e.loc := hnot x (by simp)
+        simp [dictSet, hx, ih2 (fun y hy => hnot y (by simp [hy]))]
+    show update (dictSet pre e) es = pre ++ e :: es
+    rw [hds, ih (pre ++ [e]) (by simpa using h)]
+    simp
+
+theorem resetContents_eq (image c : CSet) (h : (image.map (·.loc)).Nodup) : resetContents image c = image := by
+  have := update_append_nodup image [] (by simpa using h)
+  simpa [resetContents] using this
+
+theorem runTriggers_append (ts1 ts2 : List Trigger) (c : CSet) :
+    runTriggers (ts1 ++ ts2) c = runTriggers ts2 (runTriggers ts1 c) := by
+  simp [runTriggers, List.foldl_append]
 
 end Pkgcore.C23
